@@ -25,7 +25,7 @@ ASSUMPTIONS = ["the invariant is an internal-state invariant by nature: the rust
 
 def gen(rng, i, tier):
     return {"seed": rng.randrange(1 << 40), "n_ops": rng.choice([5, 12, 25, 40, 60]), "p_collide": rng.choice([0.2, 0.35, 0.5]),
-            "two_systems": i % 3 == 1}
+            "two_systems": i % 3 == 1, "no_reports": i % 2 == 1}
 
 
 def directed():
@@ -86,6 +86,8 @@ def run(ctx, case):
                 break
         if stop:
             break
+        if case.get("no_reports"):
+            continue  # (a report between two edits may itself refresh what an edit left stale)
         # cross-check with the public view
         st2, pr = H.call(sysobj.params)
         if st2 == "ok":
